@@ -16,6 +16,37 @@ var specialFloats = []float64{0, math.Copysign(0, -1), 5e-324, -5e-324, math.Max
 	1 << 53, 1<<53 - 1, 1<<53 + 1, -(1 << 53), 0.1, -0.1, 1e-7, 1e21, 1e22, 123456789.125, 0.5, 1.5, -2.25, 1e-300, 2.2250738585072014e-308,
 	2.225073858507201e-308, 9007199254740993, 0.30000000000000004, 1e15, 1e16, 1e17, 100, 3.14159, 4294967296, 9223372036854775807, 1e19}
 
+// boundary values of indirect references: pdf.NewReference documents object
+// numbers < 2^24, generations are uint16 (ISO 32000-2 7.5.4: at most 65535)
+var refNumbers = []uint32{0, 1, 2, 9, 10, 255, 256, 65535, 65536, 1<<23 - 1, 1 << 23, 1<<24 - 2, 1<<24 - 1}
+var refGenerations = []uint16{0, 1, 2, 9, 10, 255, 256, 32767, 32768, 65534, 65535}
+
+// refCases: every boundary reference alone, after two integers, in arrays,
+// in dictionaries (first, last and only entry), nested, and next to another
+// reference.
+func refCases() []*fmtCase {
+	var out []*fmtCase
+	for _, n := range refNumbers {
+		for _, g := range refGenerations {
+			ref := vRef(n, g)
+			other := vRef(1<<24-1-n, 65535-g)
+			for _, vals := range [][]Val{
+				{ref},
+				{vInt(1), vInt(2), ref},
+				{ref, vInt(int64(n)), vInt(int64(g)), ref},
+				{vArr(ref)},
+				{vArr(vInt(int64(g)), vInt(int64(n)), ref, other, vName([]byte("R")))},
+				{vDict(map[string]Val{"K": ref})},
+				{vDict(map[string]Val{"A": ref, "B": vInt(int64(g)), "C": other, "D": ref})},
+				{vArr(vDict(map[string]Val{"K": vArr(ref, ref)}), ref), vDict(map[string]Val{"K": vDict(map[string]Val{"L1": ref})})},
+			} {
+				out = append(out, &fmtCase{Origin: "refs", Vals: vals, Want: NormSeq(vals), RealText: true})
+			}
+		}
+	}
+	return out
+}
+
 // bytes that matter to formatName / formatString / the scanner
 var spicy = []byte{'(', ')', '\\', '\r', '\n', '#', '/', '%', '<', '>', '[', ']', '{', '}', ' ', 0, 9, 12, '0', '7', '8', 'n', 'r', 'R', 0x7f, 0x80, 0xff, 0x21, 0x7e, 'a'}
 
@@ -108,6 +139,9 @@ func randVal(r *rand.Rand, depth, maxStr int) Val {
 	case k < 64:
 		return vStr(randBytes(r, randLen(r, maxStr)))
 	case k < 70:
+		if r.Intn(2) == 0 {
+			return vRef(refNumbers[r.Intn(len(refNumbers))], refGenerations[r.Intn(len(refGenerations))])
+		}
 		return vRef(uint32(r.Intn(1<<24)), uint16(r.Intn(1<<16)))
 	case k < 84:
 		n := r.Intn(5)
